@@ -108,7 +108,9 @@ pub fn run_sliced(forms: &[Cell], budgets: &Budgets, whole: &[(MwForm, u64)], fo
         let output = m.events.borrow().clone();
         let instr = m.vm.verif_stats().instr_count;
         let broken = matches!(outcome, MwOutcome::Budget | MwOutcome::Panic(_));
-        out.push(SlicedForm { form: MwForm { outcome, output, trace_frames: None }, resumes, stalled, instr });
+        // the stack trace recorded with a failure is part of what the failure reports
+        let trace_frames = if matches!(outcome, MwOutcome::Failure(..)) { m.vm.last_stacktrace().map(|t| t.frames.len()) } else { None };
+        out.push(SlicedForm { form: MwForm { outcome, output, trace_frames }, resumes, stalled, instr });
         if broken {
             break;
         }
@@ -120,7 +122,7 @@ fn same(a: &MwForm, b: &MwForm) -> bool {
     let out_same = a.output.len() == b.output.len() && a.output.iter().zip(b.output.iter()).all(|(x, y)| x.0 == y.0 && x.1 == y.1);
     let o = match (&a.outcome, &b.outcome) {
         (MwOutcome::Value(x), MwOutcome::Value(y)) => x == y,
-        (MwOutcome::Failure(c1, p1, _), MwOutcome::Failure(c2, p2, _)) => c1 == c2 && p1 == p2,
+        (MwOutcome::Failure(c1, p1, _), MwOutcome::Failure(c2, p2, _)) => c1 == c2 && p1 == p2 && a.trace_frames == b.trace_frames,
         _ => false,
     };
     out_same && o
@@ -177,6 +179,7 @@ fn check(forms: &[Cell], budgets: &Budgets, whole: &[(MwForm, u64)], rep: &mut R
         if !same(&s.form, w) {
             let kind = match (&s.form.outcome, &w.outcome) {
                 (MwOutcome::Value(_), MwOutcome::Value(_)) => "value-differs",
+                (MwOutcome::Failure(c1, p1, _), MwOutcome::Failure(c2, p2, _)) if c1 == c2 && p1 == p2 => "failure-stack-trace-differs",
                 (MwOutcome::Failure(..), MwOutcome::Failure(..)) => "failure-differs",
                 (MwOutcome::Value(_), _) => "value-instead-of-failure",
                 _ => "failure-instead-of-value",
@@ -184,7 +187,7 @@ fn check(forms: &[Cell], budgets: &Budgets, whole: &[(MwForm, u64)], rep: &mut R
             let kind = if s.form.output.len() != w.output.len() { "output-differs" } else { kind };
             rep.violation(
                 &format!("sliced-differs:{}", kind),
-                format!("form #{} {:#}: sliced ({}) -> {} but uninterrupted -> {}", i, forms[i], budgets.describe(), show_outcome(&s.form.outcome), show_outcome(&w.outcome)),
+                format!("form #{} {:#}: sliced ({}) -> {} [{:?} trace frames] but uninterrupted -> {} [{:?} trace frames]", i, forms[i], budgets.describe(), show_outcome(&s.form.outcome), s.form.trace_frames, show_outcome(&w.outcome), w.trace_frames),
                 wit(),
                 case,
             );
